@@ -110,9 +110,9 @@ def gen(rng, tier, n):
             g = graph(rng, fields)
             ginsts = [gv.represent(rng, gv.gen_json(rng, 2)) for _ in range(3)]
             ld = rng.choice(["", "", "error", "nil", "self", "wrong", "node", "validate-defaults"])
-            if ld in ("self", "node"):
-                # the Loader hands back objects of the graph itself: a reference then recurses without descending into the instance
-                # (outside the proviso, and the model does not cover these loaders so it cannot filter): Resolve only
+            if ld not in ("", "error", "nil"):
+                # the model does not cover these loader behaviours, so it cannot tell whether the graph recurses without descending
+                # into the instance (e.g. {"$ref":"#"}; outside the proviso, it overflows the Go stack): Resolve only
                 ginsts = []
             ops.append({"op": "resolve-desc", "args": {"desc": g, "loader": ld,
                                                         "base": rng.choice(["", "", "http://x.test/r.json", "::", "http://x.test/r#frag", "rel/ative"]),
